@@ -38,6 +38,10 @@ fn plain_envelope() -> Envelope {
         .add_assertion(known_values::IS_A, known_values::SEED_TYPE)
         .add_assertion("note", "Die Strasse nach Norden ist im Winter geschlossen für alle Fahrzeuge")
         .add_assertion("n2", format!("{}é tail that makes the text long enough", "a".repeat(39)))
+        // numbers at the edges of the integer types (the most negative CBOR integer, -2^64, has no Rust integer type)
+        .add_assertion("lowest", CBOR::try_from_hex("3bffffffffffffffff").expect("cbor"))
+        .add_assertion("below i64", CBOR::try_from_hex("3b8000000000000000").expect("cbor"))
+        .add_assertion("highest", u64::MAX)
 }
 
 #[derive(Clone, Copy, Debug, PartialEq, Eq, Hash, PartialOrd, Ord)]
@@ -68,8 +72,11 @@ enum Op {
     RequestSummary,
     EventSummary,
     ExpressionDisplay,
+    /// a thread adds its own entries to the global parameter / function / known-value registries (possibly as
+    /// their first user) and looks them up again: its own registrations are never lost
+    RegisterInStoresThenLookup,
 }
-const OPS: [Op; 19] = [Op::Format, Op::FormatFlat, Op::TreeFormat, Op::DiagAnnotated, Op::Hex, Op::RegisterTags, Op::ContextRead, Op::KnownValuesLookup, Op::FunctionsLookup, Op::DcborDiag, Op::SharedCodec, Op::RegisterThenUr, Op::CustomTagThenFormat, Op::HoldRegistryThenFormat, Op::EarlyFailureSummary, Op::ResponseDisplay, Op::RequestSummary, Op::EventSummary, Op::ExpressionDisplay];
+const OPS: [Op; 20] = [Op::Format, Op::FormatFlat, Op::TreeFormat, Op::DiagAnnotated, Op::Hex, Op::RegisterTags, Op::ContextRead, Op::KnownValuesLookup, Op::FunctionsLookup, Op::DcborDiag, Op::SharedCodec, Op::RegisterThenUr, Op::CustomTagThenFormat, Op::HoldRegistryThenFormat, Op::EarlyFailureSummary, Op::ResponseDisplay, Op::RequestSummary, Op::EventSummary, Op::ExpressionDisplay, Op::RegisterInStoresThenLookup];
 
 impl Op {
     /// uses the global format context (initialises it on first use)
@@ -156,6 +163,33 @@ fn run_op(op: Op, e: &Envelope, shared: &Arc<Envelope>) -> String {
         Op::ExpressionDisplay => {
             use bc_envelope::extension::expressions::{Expression, ExpressionBehavior};
             Expression::new(Function::new_named("foo")).with_parameter(Parameter::new_named("bar"), "x").to_string()
+        }
+        Op::RegisterInStoresThenLookup => {
+            let p = Parameter::new_known(7003, Some("verifParam".to_string()));
+            let f = Function::new_known(7004, Some("verifFn".to_string()));
+            let k = KnownValue::new_with_name(7005u64, "verifKnown".to_string());
+            {
+                let mut g = bc_envelope::extension::expressions::GLOBAL_PARAMETERS.get();
+                if let Some(s) = g.as_mut() {
+                    s.insert(p.clone());
+                }
+            }
+            {
+                let mut g = bc_envelope::extension::expressions::GLOBAL_FUNCTIONS.get();
+                if let Some(s) = g.as_mut() {
+                    s.insert(f.clone());
+                }
+            }
+            {
+                let mut g = known_values::KNOWN_VALUES.get();
+                if let Some(s) = g.as_mut() {
+                    s.insert(k.clone());
+                }
+            }
+            let pn = bc_envelope::extension::expressions::GLOBAL_PARAMETERS.get().as_ref().and_then(|s| s.assigned_name(&p).map(|x| x.to_string()));
+            let fnm = bc_envelope::extension::expressions::GLOBAL_FUNCTIONS.get().as_ref().and_then(|s| s.assigned_name(&f).map(|x| x.to_string()));
+            let kn = known_values::KNOWN_VALUES.get().as_ref().and_then(|s| s.assigned_name(&k).map(|x| x.to_string()));
+            format!("{:?}|{:?}|{:?}", pn, fnm, kn)
         }
         Op::RegisterThenUr => {
             // program-order guarantee: after this thread's own register_tags(), ur_string() works
@@ -259,6 +293,8 @@ fn calibrate() -> Expected {
                 ex.s2.insert((*op, i), run_op(*op, e, &shared));
             }
         }
+        // last, because it leaves its entries in the registries
+        ex.constants.insert(Op::RegisterInStoresThenLookup, run_op(Op::RegisterInStoresThenLookup, &es[0], &shared));
         *o2.lock().unwrap() = ex;
         reset_registries();
     });
